@@ -660,15 +660,19 @@ def stub_crash(rec):
 
 
 def reset_index(ops):
-    """index of the operation that marks the end of the writing phase: the first reset of
-    attrs['writing'] to a false value after it was set, else the close()"""
+    """index of the operation that marks the end of the writing phase of a COMPLETE run: the
+    last reset of attrs['writing'] to a false value after it was set (a reset that is followed
+    by further tensor writes does not end the writing phase), else the close()"""
     seen_true = False
+    last = None
     for i, op in enumerate(ops):
         if op[0] == "attr" and op[1] == "writing":
             if op[2]:
                 seen_true = True
             elif seen_true:
-                return i
+                last = i
+    if last is not None:
+        return last
     for i, op in enumerate(ops):
         if op[0] == "close":
             return i
